@@ -56,7 +56,7 @@ def _items_of(t: STensor, b: int) -> set:
 
 
 class DEnv:
-    def __init__(self, ctx: Ctx, flow: bool = False, N: int = 3):
+    def __init__(self, ctx: Ctx, flow: bool = False, N: int = 3, flag_twins: bool = False):
         reset_relations()
         fresh_facts()
         self.ctx = ctx
@@ -75,6 +75,9 @@ class DEnv:
         self.C = 2 if flow else 1
         # grids 0..N-1 belong to the batch under test, grids N..2N-1 to a second batch with other items (for cat / append)
         self.grids = [it.new(self.Grid, size=(3, 2), spacing=(k + 1, 2 * k + 1), center=(k, -k)) for k in range(2 * N)]
+        if flag_twins:
+            # per-item grids that compare equal as Grid (Grid.__eq__ ignores the flag) but differ in align_corners
+            self.grids = [it.new(self.Grid, size=(3, 2), spacing=(2, 3), center=(1, -1), align_corners=(k % 2 == 0)) for k in range(2 * N)]
 
         def items(lo, hi):
             vals = []
@@ -144,6 +147,9 @@ class DEnv:
                     return False, f"{what}: entry {b} mixes data of items {sorted(src)} but is returned as {r.cls.name} with one item's grid"
             if self.flow and r.cls == self.FF and r.attrs.get("_axes") != self.axes:
                 return False, f"{what}: axes {r.attrs.get('_axes')} differ from the input's {self.axes}"
+            if self.flow and r.cls != self.FF and self.FF not in self.ctx.prog.mro(r.cls) and r.ndim >= 2 and r.shape[1] == self.C:
+                return False, (f"{what}: an operation on flow fields returns {r.cls.name} — an image type that has lost the vector "
+                               f"representation (axes) of its input")
         else:
             g = grids
             if isinstance(g, (tuple, list)):
@@ -181,6 +187,9 @@ def programs(env: DEnv) -> List[Tuple[str, Callable[[], Any], Optional[bool]]]:
         ("torch.cat([batch, batch], 0)", lambda: env.dispatch("torch.cat", [b, other], dim=0), True),
         ("torch.cat([batch, batch]) default dim", lambda: env.dispatch("torch.cat", [b, other]), True),
         ("torch.cat([other, batch], 0)", lambda: env.dispatch("torch.cat", [other, b], dim=0), True),
+        ("torch.cat((batch, other), 0) tuple", lambda: env.dispatch("torch.cat", (b, other), dim=0), True),
+        ("torch.cat((other, batch)) tuple, default dim", lambda: env.dispatch("torch.cat", (other, b)), True),
+        ("torch.cat(tensors=[batch, other], dim=0) keywords", lambda: env.dispatch("torch.cat", tensors=[b, other], dim=0), None),
         ("batch.append(other)", lambda: env.it.method(b, "append", other), True),
         ("other.append(batch)", lambda: env.it.method(other, "append", b), True),
         ("torch.cat([batch, plain], 0)", lambda: env.dispatch("torch.cat", [b, env.data[0:1].clone()], dim=0), None),
@@ -280,15 +289,17 @@ def run_copies(ctx: Ctx) -> None:
     prog = ctx.prog
     ctx.rule("T19.copy", "copy.copy and copy.deepcopy of Image, ImageBatch, FlowField, FlowFields (non-default axes, distinct grids) return the "
                          "same type with equal data, grids and axes")
-    for flow in (False, True):
+    for flow, twins in ((False, False), (True, False), (False, True), (True, True)):
         for single in (False, True):
+            if twins and single:
+                continue
             for deep in (False, True):
                 name = ("FlowField" if single else "FlowFields") if flow else ("Image" if single else "ImageBatch")
                 cls = prog.cls("deepali.data.flow" if flow else "deepali.data.image", name)
                 anchor = prog.find_method(cls, "__deepcopy__" if deep else "__copy__")
 
-                def th(flow=flow, single=single, deep=deep, name=name):
-                    env = DEnv(ctx, flow)
+                def th(flow=flow, single=single, deep=deep, name=name, twins=twins):
+                    env = DEnv(ctx, flow, flag_twins=twins)
                     x = env.it.method(env.batch, "__getitem__", 1) if single else env.batch
                     if not isinstance(x, STObj) or x.cls.name != name:
                         return False, f"could not build a {name}: got {x!r}"
@@ -300,7 +311,8 @@ def run_copies(ctx: Ctx) -> None:
                         from .t15_isolation import _first_diff
                         return False, f"copy differs from the original: {_first_diff(before, snapshot(y))}"
                     return True, ""
-                _guard(ctx, "T19.copy", f"{name}:{'deepcopy' if deep else 'copy'}", anchor, f"class={name} {'deepcopy' if deep else 'copy'}", th)
+                _guard(ctx, "T19.copy", f"{name}:{'deepcopy' if deep else 'copy'}" + (":grids equal up to align_corners" if twins else ""), anchor,
+                       f"class={name} {'deepcopy' if deep else 'copy'}" + (" (per-item grids equal up to align_corners)" if twins else ""), th)
 
 
 def run_pickle(ctx: Ctx) -> None:
